@@ -41,6 +41,10 @@ CLAIMED = {
    text="Coq theorems on a model of opt_default/opt_env/opt_args/opt_verify restricted to fanout, the two timeouts, remote user, transport, misc modules and remote pdcp path, for every environment and every option list (any order, any repetition): whatever pdsh runs with is valid (fanout >= 1, timeouts >= 0, known transport); each setting is the last command-line occurrence, else the environment value, else the default; non-numeric/zero/negative/overflowing fanout, malformed numeric environment values, negative timeouts, over-long user names and unknown transports are refused. Tied to /repo by running the rebuilt pdsh binary (-q dump, exit status, no contact) and the extracted model on generated env x argv combinations, with an independent Python statement of the precedence rule as oracle.",
    note=COMMON_NOTE + "getopt and libc strtoul/atoi are modelled (atoi leniency for -t/-u is carried exactly); only the settings named by the property are modelled.",
    technique="Coq proof on the settings model + extracted-model correspondence against the real binary"),
+ "C07": dict(engine="sched", section="6 C07",
+   text="Coq theorems on a timed transition system of the whole dsh() run (dispatcher, one worker per target following _rsh_thread through every fault branch, the watchdog's unlocked scan with its kill decisions, both mutexes, the integer clock), for every number of targets, fanout >= 1, every assignment of {ok, refuse, hang in connect, hang mid-command} to the hosts, every time-out setting and every admitted event sequence: each target is created, connected and torn down at most once and in order, exit implies every target - failed or not - was started once, torn down once and signalled completion (no fault path skips or repeats the epilogue), failing hosts neither leak nor double-release fanout slots (by a proved simulation onto the C03/C04 protocol system); on runs where time advances only while every thread is blocked, a worker hanging un-signalled in connect() or in the read loop is never seen later than stamp + timeout + WDOG_POLL (deadline invariant, attained by a computed example), the watchdog selects a slot only when it is strictly overdue, and command timeout 0 never abandons. Tied to /repo by running the whole unmodified pdsh program under the controlled scheduler with a virtual clock and a scripted transport over generated fault assignments, accepting every event trace with the extracted transition function (calm-ness of each clock tick included) and judging isolation, reporting on stderr, deadlines (not early, not late) and termination on the observed behaviour.",
+   note=COMMON_NOTE + "Interleavings at wrapped-call granularity; time is the code's integer time(); a SIGALRM takes effect when the worker is inside connect()/poll() (between two polls the next watchdog round re-sends it, which the model folds into 'inside the read loop'); termination is argued from exit_after_all + deadline, a bound on the run length is not proved; the transport is scripted, a remote process ignoring SIGTERM is outside the fault alphabet; -k (fail-fast) is excluded by the property.",
+   technique="Coq invariant + simulation proofs on an executable timed LTS + trace acceptance of the real program under a controlled scheduler with virtual clock and fault scripts"),
 }
 
 checks, na = [], []
